@@ -22,6 +22,7 @@ pub struct FnSpec {
     pub loop_start: BTreeMap<usize, String>,
     pub loop_end: BTreeMap<usize, String>,
     pub outline_exprs: Vec<(String, String)>,
+    pub dead_conds: Vec<(String, String)>, // (feature or -, normalised `if` condition whose then-branch is proved unreachable)
     pub no_autopost: bool,
     pub cfg: Option<String>,
     pub props: Vec<String>,
@@ -52,6 +53,7 @@ pub struct Unit {
     pub mono_vec: Vec<(String, String)>,
     pub drop_derives: Vec<String>,
     pub no_structural: Vec<String>,
+    pub shape_attrs: Vec<(String, String, String, Vec<String>)>, // struct, field, required attr text (normalised; leading ! = must be absent), props
     pub outline_contains: Vec<String>,
     pub ghost_fields: Vec<(String, String, String, String, String)>, // struct, feature, name, type, init
     pub ghost_args: Vec<(String, String, String)>, // feature, method, extra argument
@@ -181,6 +183,13 @@ pub fn parse_unit(text: &str) -> Unit {
             "ghost-arg" => { let v: Vec<&str> = rest.split_whitespace().collect(); u.ghost_args.push((v[0].into(), v[1].trim_start_matches("*.").into(), v[2..].join(" "))); }
             "outline-contains" => u.outline_contains.extend(rest.split_whitespace().map(|s| s.to_string())),
             "refcell-mut-unless" => { let mut it = rest.split_whitespace(); let feat = it.next().unwrap().to_string(); for f in it { u.refcell_mut_unless.push((feat.clone(), f.to_string())); } }
+            "shape-attr" => {
+                // shape-attr C14 Bdd.cache serde(with="vectorize")
+                let mut it = rest.split_whitespace(); let props: Vec<String> = it.next().unwrap().split('+').map(|s| s.to_string()).collect();
+                let sf = it.next().unwrap(); let (st, fl) = sf.split_once('.').unwrap();
+                let req: String = it.collect::<Vec<_>>().join("");
+                u.shape_attrs.push((st.to_string(), fl.to_string(), req, props));
+            }
             "no-structural" => u.no_structural.extend(rest.split_whitespace().map(|s| s.to_string())),
             "drop-derive" => u.drop_derives.extend(rest.split_whitespace().map(|s| s.to_string())),
             "mono-vec" => { let mut it = rest.split_whitespace(); let f = it.next().unwrap().to_string(); let p = it.next().unwrap().to_string(); u.mono_vec.push((f, p)); }
@@ -195,6 +204,7 @@ pub fn parse_unit(text: &str) -> Unit {
             "after-call" => { u.fns.get_mut(cur_fn.as_ref().unwrap()).unwrap().after_call.push((norm(rest), String::new())); section = Some(line.to_string()); }
             "after-let" => { u.fns.get_mut(cur_fn.as_ref().unwrap()).unwrap().after_let.push((norm(rest), String::new())); section = Some(line.to_string()); }
             "outline-expr" => { let (a, b) = rest.split_once("=>").expect("outline-expr A => B"); u.fns.get_mut(cur_fn.as_ref().unwrap()).unwrap().outline_exprs.push((norm(a), b.trim().to_string())); }
+            "dead-branch" => { let (f, c) = rest.trim().split_once(' ').unwrap(); u.fns.get_mut(cur_fn.as_ref().unwrap()).unwrap().dead_conds.push((f.to_string(), norm(c))); }
             "loop-start" | "loop-end" => { section = Some(line.trim().to_string()); }
             "requires" | "ensures" | "decreases" | "start" | "return" | "attrs" | "loop" => {
                 section = Some(if kw == "loop" { line.trim().to_string() } else { kw.to_string() });
